@@ -82,6 +82,8 @@ func initPwKinds() {
 	pwKinds = []pwKind{
 		{Name: "absent", JSON: "", Sem: semNever, NoPass: true},
 		{Name: "empty-object", JSON: `{}`, Sem: semNever, NoPass: true},
+		// JSON null is how "no value" is written (a nil pointer serialises to it)
+		{Name: "null", JSON: `null`, Sem: semNever, NoPass: true},
 		{Name: "plain-p1", JSON: `"p1"`, Sem: semEquals, Plain: "p1"},
 		{Name: "plain-p2", JSON: `"p2"`, Sem: semEquals, Plain: "p2"},
 		{Name: "wildcard", JSON: `{"type":"wildcard"}`, Sem: semAlways},
